@@ -147,6 +147,16 @@ def judge_c15(fs, trace, job, golden, ctx):
         for p in trace.written:
             if posixpath.basename(p) == "setup.py":
                 vs.append({"inv": "I15.3-off-not-silent", "kind": "python", "path": p})
+    # setup.py names exactly the Python extension sources written in this run
+    for p in trace.written:
+        if posixpath.basename(p) == "setup.py" and trace.emitter.get(p) == "wrapp":
+            named = set(re.findall(r"'([^'/]+\.(?:c|cpp|cxx|cc))'", trace.written[p].decode("utf-8", "replace")))
+            wrote = set(posixpath.basename(q) for q in by_emitter.get("wrapp", [])
+                        if q.rsplit(".", 1)[-1] in ("c", "cpp", "cxx", "cc"))
+            if named != wrote:
+                vs.append({"inv": "I15.2-setup-sources", "kind": "python", "path": p,
+                           "detail": {"named_not_written": sorted(named - wrote)[:6],
+                                      "written_not_named": sorted(wrote - named)[:6]}})
     # I15.4 Python/Lua switches do not change a byte of the C and Fortran files
     ref = m.get("cf_ref")
     if ref and ref in ctx.goldens:
@@ -256,18 +266,8 @@ def token_spec(rng, idx):
             entries.append({"kind": "fn", "indent": indent, "decl": "void %s(double first, int second)" % tok,
                             "tok": tok, "shape": "overload", "over": over2})
 
-    for _ in range(rng.randint(2, 5)):
-        add_fn("")
-    if rng.random() < 0.5:
-        cname = rng.choice(synth.CLASSES)
-        entries += [{"kind": "raw", "line": "- decl: class %s" % cname}, {"kind": "raw", "line": "  declarations:"},
-                    {"kind": "raw", "line": "  - decl: %s()" % cname}, {"kind": "raw", "line": "  - decl: ~%s()" % cname}]
-        for _ in range(rng.randint(1, 3)):
-            add_fn("  ", allow_overload=False)
-        for e in entries:
-            e.setdefault("ns", False)  # everything so far is outside any namespace
-    def ns_over():
-        # container-level override: inherited by the members
+    def cont_over():
+        # container-level override (class / namespace): inherited by the members
         if rng.random() < 0.5:
             return {}
         (oc, of) = rng.choice(CF_DOMAIN)
@@ -278,13 +278,34 @@ def token_spec(rng, idx):
             over["c"] = True
         return over
 
+    ncls = [0]
+
+    def add_class(depth):
+        """A class whose name is a token; constructor and destructor inherit the class' flags."""
+        ind = "  " * (depth - 1)
+        name = "Zq%dcl%s" % (idx, "abcd"[ncls[0] % 4])
+        ncls[0] += 1
+        entries.append({"kind": "cont", "what": "class", "indent": ind, "name": name, "over": cont_over(),
+                        "depth": depth})
+        entries.append({"kind": "member", "indent": ind + "  ", "decl": "%s()" % name})
+        entries.append({"kind": "member", "indent": ind + "  ", "decl": "~%s()" % name})
+        for _ in range(rng.randint(1, 3)):
+            add_fn(ind + "  ", allow_overload=False)
+
+    for _ in range(rng.randint(2, 5)):
+        add_fn("")
     if rng.random() < 0.6:
-        outer = "zq%dnsa" % idx
-        entries.append({"kind": "ns", "indent": "", "name": outer, "over": ns_over(), "depth": 1})
+        add_class(1)
+    if rng.random() < 0.6:
+        entries.append({"kind": "cont", "what": "namespace", "indent": "", "name": "zq%dnsa" % idx,
+                        "over": cont_over(), "depth": 1})
         for _ in range(rng.randint(0, 2)):
             add_fn("  ", allow_overload=False)
+        if rng.random() < 0.4:
+            add_class(2)
         if rng.random() < 0.7:
-            entries.append({"kind": "ns", "indent": "  ", "name": "zq%dnsb" % idx, "over": ns_over(), "depth": 2})
+            entries.append({"kind": "cont", "what": "namespace", "indent": "  ", "name": "zq%dnsb" % idx,
+                            "over": cont_over(), "depth": 2})
             for _ in range(rng.randint(1, 2)):
                 add_fn("    ", allow_overload=False)
     return {"lib": lib, "c": wc, "fortran": wf, "entries": entries}
@@ -299,17 +320,14 @@ def render_token_library(spec, wp, wl):
         lines.append("  wrap_%s: %s" % (lang, lf[lang]))
     lines.append("declarations:")
     tokens = {}
-    scope = {0: dict(lf)}  # effective defaults per nesting depth (options are inherited)
-    open_ns = []  # (depth, token) of the namespaces a function is nested in
+    stack = []  # enclosing containers: (depth, name, effective defaults)
     for e in spec["entries"]:
-        if e["kind"] == "raw":
-            lines.append(e["line"])
-            continue
-        if e["kind"] == "ns":
+        if e["kind"] == "cont":
             d = e["depth"]
-            open_ns = [x for x in open_ns if x[0] < d]
-            base = dict(scope[d - 1])
-            lines.append("%s- decl: namespace %s" % (e["indent"], e["name"]))
+            while stack and stack[-1][0] >= d:
+                stack.pop()
+            base = dict(stack[-1][2]) if stack else dict(lf)
+            lines.append("%s- decl: %s %s" % (e["indent"], e["what"], e["name"]))
             if e["over"]:
                 lines.append("%s  options:" % e["indent"])
                 for k in LANGS:
@@ -317,19 +335,29 @@ def render_token_library(spec, wp, wl):
                         lines.append("%s    wrap_%s: %s" % (e["indent"], k, e["over"][k]))
                         base[k] = e["over"][k]
             lines.append("%s  declarations:" % e["indent"])
-            scope[d] = base
-            open_ns.append((d, e["name"]))
+            stack.append((d, e["name"], base))
             tokens[e["name"]] = {"c": bool(base["c"]), "fortran": bool(base["fortran"]), "python": bool(base["python"]),
-                                 "lua": False, "shape": "namespace", "lua_unsupported": True, "members": 0}
+                                 "lua": False, "shape": e["what"], "lua_unsupported": True, "members": 0}
             continue
         ind = e["indent"]
         depth = len(ind) // 2
-        if depth == 0 or not any(l.startswith("- decl: namespace") or l.startswith("  - decl: namespace")
-                                 for l in lines[-40:]):
-            pass
+        while stack and stack[-1][0] > depth:
+            stack.pop()
+        if e["kind"] == "member":
+            # constructor / destructor: no token of its own, inherits the class' flags
+            lines.append("%s- decl: %s" % (ind, e["decl"]))
+            eff = dict(stack[-1][2]) if stack else dict(lf)
+            if eff["fortran"] and not eff["c"]:
+                return None
+            for (_d, cname, _b) in stack:
+                t = tokens[cname]
+                t["members"] += 1
+                for l in LANGS:
+                    t[l] = t[l] or bool(eff[l])
+            continue
         lines.append("%s- decl: %s" % (ind, e["decl"]))
-        in_ns = [x for x in open_ns if x[0] <= depth] if (open_ns and depth >= 1 and e.get("ns", True)) else []
-        eff = dict(scope[max(x[0] for x in in_ns)] if in_ns else lf)
+        in_ns = [(x[0], x[1]) for x in stack]
+        eff = dict(stack[-1][2]) if stack else dict(lf)
         if e["over"]:
             lines.append("%s  options:" % ind)
             for k in LANGS:
@@ -356,7 +384,7 @@ def render_token_library(spec, wp, wl):
             cur["lua_unsupported"] = True
         if e["shape"] == "overload":
             cur["shape"] = "overload"
-    for name in [n for n, t in tokens.items() if t["shape"] == "namespace" and not t["members"]]:
+    for name in [n for n, t in tokens.items() if t["shape"] in ("namespace", "class") and not t["members"]]:
         del tokens[name]
     return "\n".join(lines) + "\n", lf, tokens
 
@@ -384,7 +412,7 @@ def token_jobs(seeds, n):
             for t, eff in tokens.items():
                 e = {l: bool(eff[l]) for l in LANGS}
                 e["shape"] = eff["shape"]
-                if eff["shape"] == "namespace":
+                if eff["shape"] in ("namespace", "class"):
                     # a namespace is a declaration too.  Only one direction is asserted: when it is off
                     # for a language itself and none of its members turns that language on, its name
                     # appears nowhere in that language's output (file names included).  What an "on"
@@ -392,6 +420,10 @@ def token_jobs(seeds, n):
                     for l in LANGS:
                         if e[l]:
                             e[l] = None
+                    if eff["shape"] == "class":
+                        # the C utility header declares the capsule struct of every class that any
+                        # language wraps (the other emitters are built on it): not asserted for C
+                        e["c"] = None
                 if eff.get("lua_unsupported") or eff["shape"] == "overload":
                     e["lua"] = None  # Lua supports few argument kinds: not asserted
                 if eff["shape"] == "strret" and e["c"] and not e["fortran"]:
@@ -434,12 +466,17 @@ def family_jobs(seeds, nfam, bases, patterns=None, label="c15fam", round_robin=F
                  "ffiles": rng.choice([OUT + "/ffiles.txt", WORK + "/f.lst"])}
         mk = sorted(set(mk + [posixpath.dirname(p) for p in lists.values()] + [WORK]))
         fam = "%s/%d-%s-%s" % (label, i, base.id.split("/")[-1], pat)
+        extra = []
+        if rng.random() < 0.3:
+            extra += ["--write-helpers", "helpers", "--write-statements", "statements"]
+        if rng.random() < 0.2:
+            extra += ["--yaml-types", "deftypes.yaml"]
         for vec in FLAG_VECTORS:
             argv = list(base.meta.get("cmdline", [])) + ["--path", IN_DIR] + dargv + [
                 "--option", "debug_testsuite=true", "--nowrite-version"]
             for lang, v in zip(LANGS, vec):
                 argv += ["--option", "wrap_%s=%s" % (lang, "true" if v else "false")]
-            argv += ["--cfiles", lists["cfiles"], "--ffiles", lists["ffiles"], ypath]
+            argv += extra + ["--cfiles", lists["cfiles"], "--ffiles", lists["ffiles"], ypath]
             flags, nested_on = library_flags(base.files[ypath], argv)
             jid = "%s/%s" % (fam, "".join("1" if v else "0" for v in vec))
             ref = "%s/%s" % (fam, "".join("1" if v else "0" for v in (vec[0], vec[1], False, False)))
@@ -510,7 +547,8 @@ class C15Engine(gcheck.GEngine):
         sweep_bases = [j for j in corpus if j.id in ("corpus/tutorial", "corpus/classes", "corpus/struct-c",
                                                      "corpus/strings", "corpus/vectors", "corpus/clibrary",
                                                      "corpus/ownership", "corpus/namespace")][: t["sweep_libs"]]
-        pats = ["single", "distinct", "py_lua_shared", "nested", "cf_only", "no_outdir", "log_apart"]
+        pats = ["single", "distinct", "py_lua_shared", "nested", "cf_only", "no_outdir", "log_apart", "relative",
+                "trailing_slash"]
         sweep = family_jobs(self.seeds, len(sweep_bases) * len(pats), sweep_bases, patterns=pats,
                             label="c15sweep")
         self.sweep_space = len(sweep_bases) * len(pats) * len(FLAG_VECTORS)
